@@ -5,11 +5,17 @@ package handler
 // C02 (call sites): drives the real SheddingHandler with a recording shedder.
 //   ops:  req allow=<0/1> code=<status the next handler writes, 0 = writes nothing> panic=<0/1>
 //             [body=<0/1> the handler writes a body] [again=<second WriteHeader code, 0 = none>] [nilshed=<0/1> SheddingHandler(nil, …)]
+//             [pre=<status the incoming writer already carries: it is a *WithCodeResponseWriter of an outer middleware>]
 //   obs:  status=<n> ran=<0/1> early=<promise resolutions seen while the next handler ran> pass=<n> fail=<n>
 //         allows=<n> st=<total>/<pass>/<drop>  (deltas of the package's SheddingStat; "reset" if its reporter zeroed it meanwhile)
+//   ops:  real depth=<1..4> code= panic= [again=] [pre=]   the REAL adaptive shedder of the section (state kept between
+//             requests) behind SheddingHandler; the handler re-enters the wrapped handler depth-1 times with the writer it
+//             was given (nested requests, one shared WithCodeResponseWriter); the innermost one writes / panics
+//   obs:  ran=<n> peak=<flying seen by the innermost handler> flying=<after> avg=<n/d after> st=
 
 import (
 	"fmt"
+	"math/big"
 	"net/http"
 	"net/http/httptest"
 	"reflect"
@@ -20,7 +26,15 @@ import (
 	"github.com/zeromicro/go-zero/core/logx"
 	"github.com/zeromicro/go-zero/core/stat"
 	"github.com/zeromicro/go-zero/internal/verifh"
+	"github.com/zeromicro/go-zero/rest/internal/response"
 )
+
+// c02Real reads the in-flight counter and its moving average of a real adaptive shedder (unexported fields, read-only).
+func c02Real(sh load.Shedder) (int64, string) {
+	v := reflect.ValueOf(sh).Elem()
+	r := new(big.Rat).SetFloat64(v.FieldByName("avgFlying").Float())
+	return v.FieldByName("flying").Int(), r.RatString()
+}
 
 type c02Shedder struct {
 	allow              bool
@@ -62,10 +76,32 @@ func c02hGen(r *verifh.Rng) []verifh.Section {
 				op += fmt.Sprintf(" again=%d", r.Pick(200, 500, 503))
 			case 2:
 				op += " nilshed=1"
+			case 3:
+				// an outer middleware already wrapped the writer (and maybe set a status): the wrapper reuses it
+				op += fmt.Sprintf(" pre=%d", r.Pick(200, 503, 503, 500))
 			}
 			ops = append(ops, op)
 		}
 		secs = append(secs, verifh.Section{Cfg: "handler=rest", Ops: ops})
+	}
+	// the real adaptive shedder behind the wrapper, kept for the whole section: many requests, nested ones, panics
+	for i := 0; i < verifh.Scale(8, 40); i++ {
+		var ops []string
+		for j := 0; j < r.Range(6, 30); j++ {
+			pn := 0
+			if r.Chance(1, 3) {
+				pn = 1
+			}
+			op := fmt.Sprintf("real depth=%d code=%d panic=%d", r.Pick(1, 1, 2, 3, 4), r.Pick(0, 200, 404, 500, 503, 503), pn)
+			switch r.Intn(6) {
+			case 0:
+				op += fmt.Sprintf(" again=%d", r.Pick(200, 503))
+			case 1:
+				op += fmt.Sprintf(" pre=%d", r.Pick(200, 503))
+			}
+			ops = append(ops, op)
+		}
+		secs = append(secs, verifh.Section{Cfg: "handler=rest real=1", Ops: ops})
 	}
 	return secs
 }
@@ -86,15 +122,68 @@ func TestVerifC02H(t *testing.T) {
 	metrics := stat.NewMetrics("verif-c02")
 	secs := verifh.Sections(c02hGen)
 	verifh.Run(t, secs, func(cfg verifh.Cfg) (func(op []string) string, func()) {
+		var real load.Shedder
+		if cfg.Int("real", 0) == 1 {
+			// a threshold no CPU reading reaches: the shedder admits everything, what is checked is the bookkeeping
+			real = load.NewAdaptiveShedder(load.WithCpuThreshold(1 << 40))
+		}
 		step := func(op []string) string {
-			if op[0] != "req" {
-				return "bad-op"
-			}
 			kv := map[string]string{}
 			for _, tok := range op[1:] {
 				if i := strings.IndexByte(tok, '='); i > 0 {
 					kv[tok[:i]] = tok[i+1:]
 				}
+			}
+			if op[0] == "real" && real != nil {
+				depth := verifh.Atoi(kv["depth"])
+				code := verifh.Atoi(kv["code"])
+				again := 0
+				if kv["again"] != "" {
+					again = verifh.Atoi(kv["again"])
+				}
+				ran, level := 0, 0
+				var peak int64
+				var h http.Handler
+				next := http.HandlerFunc(func(w http.ResponseWriter, r *http.Request) {
+					ran++
+					level++
+					if level < depth {
+						h.ServeHTTP(w, r)
+						return
+					}
+					peak, _ = c02Real(real)
+					if code != 0 {
+						w.WriteHeader(code)
+					}
+					if again != 0 {
+						w.WriteHeader(again)
+					}
+					if kv["panic"] == "1" {
+						panic("verif")
+					}
+				})
+				h = SheddingHandler(real, metrics)(next)
+				before := c02Stat()
+				var w http.ResponseWriter = httptest.NewRecorder()
+				if kv["pre"] != "" {
+					cw := response.NewWithCodeResponseWriter(w)
+					cw.Code = verifh.Atoi(kv["pre"])
+					w = cw
+				}
+				func() {
+					defer func() { recover() }()
+					h.ServeHTTP(w, httptest.NewRequest(http.MethodGet, "http://localhost/x", http.NoBody))
+				}()
+				after := c02Stat()
+				st := fmt.Sprintf("%d/%d/%d", after[0]-before[0], after[1]-before[1], after[2]-before[2])
+				if after[0] < before[0] || after[1] < before[1] || after[2] < before[2] {
+					st = "reset"
+				}
+				fl, avg := c02Real(real)
+				return fmt.Sprintf("ran=%d peak=%d flying=%d avg=%s st=%s", ran, peak, fl, avg, st)
+			}
+			if op[0] != "req" {
+				return "bad-op"
 			}
 			sh := &c02Shedder{allow: kv["allow"] == "1"}
 			code := verifh.Atoi(kv["code"])
@@ -128,9 +217,15 @@ func TestVerifC02H(t *testing.T) {
 			}
 			before := c02Stat()
 			rec := httptest.NewRecorder()
+			var w http.ResponseWriter = rec
+			if kv["pre"] != "" {
+				cw := response.NewWithCodeResponseWriter(rec)
+				cw.Code = verifh.Atoi(kv["pre"])
+				w = cw
+			}
 			func() {
 				defer func() { recover() }()
-				h.ServeHTTP(rec, httptest.NewRequest(http.MethodGet, "http://localhost/x", http.NoBody))
+				h.ServeHTTP(w, httptest.NewRequest(http.MethodGet, "http://localhost/x", http.NoBody))
 			}()
 			after := c02Stat()
 			st := fmt.Sprintf("%d/%d/%d", after[0]-before[0], after[1]-before[1], after[2]-before[2])
